@@ -23,16 +23,19 @@ typedef boost::tuple<Pomerol::ComplexType, Pomerol::ComplexType, Pomerol::Comple
 typedef std::array<int, 4> Q4;
 uint64_t fnv(const void* p, size_t n, uint64_t h = 1469598103934665603ULL) { const unsigned char* b = (const unsigned char*)p; for (size_t i = 0; i < n; ++i) { h ^= b[i]; h *= 1099511628211ULL; } return h; }
 
-struct Spec { ModelSpec m; int pmode; std::vector<Q4> single; std::vector<Q4> contset; std::vector<ftuple> freqs; std::vector<std::array<long, 3>> grid; bool clear1, clear2, split, usefreqs1, usefreqs2; };
+struct Spec { ModelSpec m; int pmode; std::vector<Q4> single; std::vector<Q4> contset; std::vector<Q4> second; std::vector<ftuple> freqs; std::vector<std::array<long, 3>> grid; bool clear1, clear2, split, usefreqs1, usefreqs2; };
 
 struct Results {
     std::vector<double> evals; std::vector<uint64_t> eighash; double ground = 0;
+    std::vector<std::vector<cd>> fops;           // dense images of the stored parts of c+_i, c_i (all i) and one c+_i c_j, computed with the given communicator
     std::vector<std::vector<cd>> tab1;           // per single quadruple: returned table
     std::vector<std::vector<cd>> grid1;          // per single quadruple: term evaluation on the grid (empty if purged / throws)
     std::vector<std::string> err1;
     std::map<Q4, std::vector<cd>> ctab;          // container: returned tables
     std::map<Q4, std::vector<cd>> cgrid;         // container: evaluation of every listed element
     std::map<Q4, std::string> cerr;
+    std::map<Q4, std::vector<cd>> cgrid2;        // container after on-demand look-ups + a second bulk computation
+    std::map<Q4, std::string> cerr2;
     long parts = 0, nontrivial_elems = 0;
 };
 
@@ -46,6 +49,20 @@ Results workflow(const Spec& sp, const boost::mpi::communicator& comm) {
         R.eighash.push_back(fnv(M.data(), sizeof(Pomerol::MelemType) * (size_t)M.size(), fnv(ev.data(), sizeof(double) * (size_t)ev.size())));
     }
     R.ground = p.H->getGroundEnergy();
+    {   // field operators computed one by one with THIS communicator (the container computes them with the default one)
+        auto dump = [&](Pomerol::FieldOperator& fo) { std::vector<cd> v; const std::vector<Pomerol::FieldOperatorPart*>& ps = fo.getParts();
+            for (size_t q = 0; q < ps.size(); ++q) { const Pomerol::RowMajorMatrixType& e = ps[q]->getRowMajorValue(); v.push_back(cd((double)e.rows(), (double)e.cols()));
+                CMat d = CMat::Zero(e.rows(), e.cols()); for (int k = 0; k < e.outerSize(); ++k) for (Pomerol::RowMajorMatrixType::InnerIterator it(e, k); it; ++it) d(it.row(), it.col()) = to_cd(it.value());
+                for (long a = 0; a < d.rows(); ++a) for (long b = 0; b < d.cols(); ++b) v.push_back(d(a, b)); }
+            R.fops.push_back(v); };
+        for (int i = 0; i < p.N; ++i) {
+            Pomerol::CreationOperator CX(*p.IC, *p.S, *p.H, (Pomerol::ParticleIndex)i); CX.prepare(); CX.compute(comm); dump(CX);
+            Pomerol::AnnihilationOperator C(*p.IC, *p.S, *p.H, (Pomerol::ParticleIndex)i); C.prepare(); C.compute(comm); dump(C);
+        }
+        Pomerol::QuadraticOperator Q(*p.IC, *p.S, *p.H, (Pomerol::ParticleIndex)0, (Pomerol::ParticleIndex)(p.N - 1)); Q.prepare(); Q.compute(comm); dump(Q);
+        // and the container's operators (default communicator) must be the same matrices
+        for (int i = 0; i < p.N; ++i) { dump(const_cast<Pomerol::CreationOperator&>(p.Ops->getCreationOperator((Pomerol::ParticleIndex)i))); dump(const_cast<Pomerol::AnnihilationOperator&>(p.Ops->getAnnihilationOperator((Pomerol::ParticleIndex)i))); }
+    }
     auto mk = [&](const Q4& q) { return new Pomerol::TwoParticleGF(*p.S, *p.H, p.Ops->getAnnihilationOperator((Pomerol::ParticleIndex)q[0]), p.Ops->getAnnihilationOperator((Pomerol::ParticleIndex)q[1]), p.Ops->getCreationOperator((Pomerol::ParticleIndex)q[2]), p.Ops->getCreationOperator((Pomerol::ParticleIndex)q[3]), *p.DM); };
     for (auto& q : sp.single) {
         std::unique_ptr<Pomerol::TwoParticleGF> X(mk(q)); X->prepare(); R.parts += (long)X->parts.size();
@@ -67,6 +84,17 @@ Results workflow(const Spec& sp, const boost::mpi::communicator& comm) {
             try { for (auto& g : sp.grid) gvals.push_back(it->second(g[0], g[1], g[2])); } catch (const std::exception& e) { err = e.what(); gvals.clear(); }
             R.cgrid[q] = gvals; if (!err.empty()) R.cerr[q] = err;
         }
+        // second phase: elements obtained on demand after the bulk computation are prepared, then a second bulk computation
+        if (!sp.clear2 && !sp.second.empty()) {
+            for (auto& q : sp.second) { Pomerol::TwoParticleGF& e = static_cast<Pomerol::TwoParticleGF&>(C(Pomerol::IndexCombination4((Pomerol::ParticleIndex)q[0], (Pomerol::ParticleIndex)q[1], (Pomerol::ParticleIndex)q[2], (Pomerol::ParticleIndex)q[3]))); if (e.getStatus() < Pomerol::TwoParticleGF::Prepared) e.prepare(); }
+            C.computeAll(false, std::vector<ftuple>(), comm, sp.split);
+            for (auto it = C.ElementsMap.begin(); it != C.ElementsMap.end(); ++it) {
+                Q4 q = {(int)it->first.Index1, (int)it->first.Index2, (int)it->first.Index3, (int)it->first.Index4};
+                std::vector<cd> gvals; std::string err;
+                try { for (auto& g : sp.grid) gvals.push_back(it->second(g[0], g[1], g[2])); } catch (const std::exception& e) { err = e.what(); gvals.clear(); }
+                R.cgrid2[q] = gvals; if (!err.empty()) R.cerr2[q] = err;
+            }
+        }
     }
     return R;
 }
@@ -87,6 +115,7 @@ static void par_run(Ctx& c) {
     int ncomp = (int)r.range(1, 5); std::set<Q4> cs;
     for (int t = 0; t < 40 && (int)cs.size() < ncomp; ++t) { Q4 q = rq(); if (t % 3 == 0) { q[2] = q[1]; q[3] = q[0]; } if (q[0] > q[1]) std::swap(q[0], q[1]); if (q[2] > q[3]) std::swap(q[2], q[3]); cs.insert(q); }
     sp.contset.assign(cs.begin(), cs.end());
+    if (r.coin(0.5)) { for (int t = 0; t < 30 && sp.second.size() < 2; ++t) { Q4 q = rq(); if (!cs.count(q)) sp.second.push_back(q); } }
     for (long a = -1; a <= 1; ++a) for (long b = -1; b <= 1; ++b) for (long d = -1; d <= 1; ++d) sp.grid.push_back({a, b, d});
     long nf = r.coin(0.3) ? 200 : (long)r.range(1, 30);
     for (long t = 0; t < nf; ++t) { long n1 = r.range(-6, 6), n2 = r.range(-6, 6), n3 = r.range(-6, 6); auto w = [&](long n) { return cd(0, (2 * n + 1) * M_PI / beta); }; sp.freqs.push_back(boost::make_tuple(w(n1), w(n2), w(n3))); }
@@ -98,6 +127,7 @@ static void par_run(Ctx& c) {
     J desc = sp.m.describe(); desc.set("partition", pm_name(sp.pmode)).set("P", P).set("threads", threads).set("clear_single", sp.clear1).set("clear_container", sp.clear2).set("split", sp.split)
         .set("freqs_single", sp.usefreqs1 ? (long)sp.freqs.size() : 0L).set("freqs_container", sp.usefreqs2 ? (long)sp.freqs.size() : 0L);
     { J a = J::arr(); for (auto& q : sp.contset) a.push(qs(q)); desc.set("container_components", a); }
+    { J a = J::arr(); for (auto& q : sp.second) a.push(qs(q)); desc.set("on_demand_then_second_bulk", a); }
     c.model = desc; c.canon = desc.str();
 
 #ifdef POMEROL_VERIF
@@ -122,12 +152,19 @@ static void par_run(Ctx& c) {
     for (auto& t : ref.tab1) for (auto& v : t) S = std::max(S, std::abs(v));
     for (auto& t : ref.grid1) for (auto& v : t) S = std::max(S, std::abs(v));
     for (auto& kv : ref.cgrid) for (auto& v : kv.second) S = std::max(S, std::abs(v));
+    for (auto& kv : ref.cgrid2) for (auto& v : kv.second) S = std::max(S, std::abs(v));
     const double tol = 1e-9 * S;
     std::string pk = "P" + std::string(P == 1 ? "=1" : ">1");
     // spectrum
     ++nchk; if (par.evals.size() != ref.evals.size()) bad("C06:spectrum-size", "eigenvalue count differs from the single-rank run");
     else for (size_t n = 0; n < ref.evals.size(); ++n) { ++nchk; if (!(std::abs(par.evals[n] - ref.evals[n]) <= 1e-10 * (1 + std::abs(ref.evals[n])))) { bad("C06:spectrum-vs-single-rank", "eigenvalue #" + std::to_string(n) + " " + fmt(par.evals[n]) + " vs " + fmt(ref.evals[n])); break; } }
     ++nchk; if (!(std::abs(par.ground - ref.ground) <= 1e-10 * (1 + std::abs(ref.ground)))) bad("C06:ground-energy-vs-single-rank", fmt(par.ground) + " vs " + fmt(ref.ground));
+    // field operators: every rank must hold the same (complete) matrices as a single-rank run
+    ++nchk; if (par.fops.size() != ref.fops.size()) bad("C06:field-operator:count", "number of field operators differs");
+    else for (size_t k = 0; k < ref.fops.size(); ++k) { ++nchk;
+        bool same = par.fops[k].size() == ref.fops[k].size(); double worst = 0;
+        if (same) for (size_t w = 0; w < ref.fops[k].size(); ++w) worst = std::max(worst, std::abs(par.fops[k][w] - ref.fops[k][w]));
+        if (!same || !(worst <= 1e-10)) { bad("C06:field-operator-vs-single-rank:" + pk, "field operator #" + std::to_string(k) + " (c+_i, c_i alternating, then c+_0 c_{N-1}, then the container's operators): stored parts differ from the single-rank computation (max deviation " + fmt(worst) + ", shapes equal: " + std::to_string(same) + ")"); break; } }
     // stand-alone 2PGF: table on the root, terms on every rank when kept
     for (size_t k = 0; k < sp.single.size(); ++k) {
         std::string q = "chi_" + qs(sp.single[k]) + (sp.clear1 ? " clear" : " keep") + (sp.usefreqs1 ? " freqs=" + std::to_string(sp.freqs.size()) : " nofreqs");
@@ -157,6 +194,12 @@ static void par_run(Ctx& c) {
 #ifdef POMEROL_VERIF
     pMPI::verif::event("h_case_done", c.k, 100 + (sp.split ? 1 : 0));
 #endif
+    for (auto& kv : ref.cgrid2) { ++nchk;
+        if (ref.cerr2.count(kv.first)) continue;
+        auto it = par.cgrid2.find(kv.first);
+        if (it == par.cgrid2.end()) { bad("C06:container:second-bulk:element-missing:" + ck, cq + ": element " + qs(kv.first) + " not listed on this rank after on-demand look-ups and a second computeAll"); continue; }
+        if (par.cerr2.count(kv.first)) { bad("C06:container:second-bulk:element-not-evaluable:" + ck + ":" + pk, cq + ": after on-demand look-ups + second computeAll element " + qs(kv.first) + " throws on this rank: " + par.cerr2[kv.first]); continue; }
+        for (size_t w = 0; w < kv.second.size() && w < it->second.size(); ++w) if (!(std::abs(it->second[w] - kv.second[w]) <= tol)) { bad("C06:container:second-bulk:terms-vs-single-rank:" + ck + ":" + pk, cq + ": after on-demand look-ups + second computeAll " + qs(kv.first) + " grid point " + std::to_string(w) + ": " + fmt(it->second[w]) + " vs " + fmt(kv.second[w])); break; } }
     // ---- gather on rank 0: violations, counts, eigen-data hashes
     std::vector<std::vector<std::string>> allv; std::vector<std::vector<uint64_t>> allh; std::vector<long> alln;
     boost::mpi::gather(world, viol, allv, 0); boost::mpi::gather(world, par.eighash, allh, 0); boost::mpi::gather(world, nchk, alln, 0);
